@@ -14,6 +14,13 @@ func checkC19(r *Run) {
 	r.Explain = "(R2+) the live object returned by wallets.get never escapes: every use is a nil test or a read-only method call, it is never returned nor handed to other code; (R4+) the fingerprint of a created wallet is registered under no other condition than being non-empty (the condition of the conflict test), and unload / bulk load treat the map symmetrically; C19: (R1) typestate saved(w): every Service method that publishes a wallet into the in-memory set (wallets.set) does so only on paths where that same wallet value was saved to the wallet directory without error or is a temporary wallet (all-paths rule); a wallet added before saving is removed again on the failing edge; (R2) service methods mutate clones only: what they publish derives from getWallet (a Clone) or a freshly created wallet, and values obtained directly from the set are used read-only; (R3) a failed operation changes neither view: after wallets.set / the fingerprint update no error return is reachable (UnloadWallet is in-memory by design); (R4) a new wallet is refused when its fingerprint is already registered, before it is added; (R5) every access to the wallet set and the fingerprint map happens under the service mutex."
 	r.NotDec = "equality with a freshly started service for a concrete operation sequence; file-system failures between Save and set"
 	ruleRecoverWalletOptions(r, "C19-R6")
+	if nCl, shallow, spos := shallowClones(r.P, "wallet.", "wallet/"); true {
+		r.Units["clone methods inspected"] = nCl
+		for i, s := range shallow {
+			r.Check("C19-R2", "clones are deep: "+s, r.P.Pos(spos[i].Pos()), false, "an operation on the clone (Unlock, Erase, secret updates) writes through to the live wallet even when the operation fails")
+		}
+		r.Check("C19-R2", "clone methods of the wallet packages found", "", nCl >= 2, fmt.Sprint(nCl))
+	}
 	if _, aliased := loopAliasedAddrs(r.P, "wallet.", "wallet/"); true {
 		for _, in := range aliased {
 			r.Check("C19-R2", FnName(in.Parent())+": clones hold one distinct object per element", r.P.Pos(in.Pos()), false, "the address of a loop-carried variable is stored in every iteration")
